@@ -52,6 +52,7 @@ class UnitResult:
         self.notes = []
         self.clauses = 0
         self.labels = []
+        self.relaxed = []
 
     def to_json(self):
         return self.__dict__
@@ -106,6 +107,7 @@ def verify_unit(name, tier='quick', seed=0, threads=8):
     r.dropped = dict(u.dropped)
     r.fns = [{'key': k, 'file': f, 'lines': [a, b], 'contract': c} for (k, f, a, b, c) in u.fns]
     r.items = u.item_log
+    r.relaxed = list(u.relaxed)
     r.opaque = u.opaque
     r.notes = u.notes
     r.assumptions = scan_assumptions(text)
